@@ -82,12 +82,17 @@ func isProtoMsg(t types.Type) *types.Named {
 // the fields of a source variable that the guarded block encodes but the guard does not examine.
 var guardGaps = map[*PkgIndex]map[string]string{}
 
+// siblingGuards: guarded later assignments whose guard neither creates the message nor looks at the value's own source.
+var siblingGuards = map[*PkgIndex]map[string]string{}
+
 func protoAssignments(ix *PkgIndex) (map[string]map[string]string, map[string]string) {
 	info := ix.Pkg.TypesInfo
 	out := map[string]map[string]string{}
 	guards := map[string]string{}
 	gaps := map[string]string{}
 	guardGaps[ix] = gaps
+	sibs := map[string]string{}
+	siblingGuards[ix] = sibs
 	var curFn *FuncInfo
 	put := func(msg, fld string, e ast.Expr) {
 		if out[msg] == nil {
@@ -148,6 +153,47 @@ func protoAssignments(ix *PkgIndex) (map[string]map[string]string, map[string]st
 								if gap := guardGap(info, g, r); gap != "" {
 									gaps[m.Obj().Name()+"."+sel.Sel.Name] = gap
 								}
+								// does the guard create the message (the variable is defined under it), or look at what the value is
+								// read from? Otherwise it tests something else — a sibling field
+								if is := enclosingIf(f, x); is != nil {
+									created := false
+									if base := objOf(info, sel.X); base != nil && definedIn(info, is.Body, base) {
+										created = true
+									}
+									if base := objOf(info, sel.X); base != nil {
+										inspectNoLit(is.Body, func(k ast.Node) bool {
+											if as2, ok := k.(*ast.AssignStmt); ok {
+												for _, l2 := range as2.Lhs {
+													if sameVar(info, l2, base) {
+														created = true
+													}
+												}
+											}
+											return true
+										})
+									}
+									shared := false
+									roots := map[types.Object]bool{}
+									ast.Inspect(r, func(k ast.Node) bool {
+										if id, ok := k.(*ast.Ident); ok {
+											if v, isV := info.Uses[id].(*types.Var); isV && !v.IsField() {
+												roots[v] = true
+											}
+										}
+										return true
+									})
+									ast.Inspect(g, func(k ast.Node) bool {
+										if id, ok := k.(*ast.Ident); ok {
+											if v, isV := info.Uses[id].(*types.Var); isV && roots[v] {
+												shared = true
+											}
+										}
+										return true
+									})
+									if !created && !shared && exprStr(unparen(g)) != "" && !strings.Contains(expandExpr(info, f, g, 0), rootCallText(r)) {
+										sibs[m.Obj().Name()+"."+sel.Sel.Name] = expandExpr(info, f, g, 0)
+									}
+								}
 							}
 						}
 					}
@@ -160,6 +206,22 @@ func protoAssignments(ix *PkgIndex) (map[string]map[string]string, map[string]st
 }
 
 // enclosingIfCond returns the condition of the innermost if statement of f whose body contains n, or nil.
+// rootCallText: the text of the value's source for a textual "the guard mentions it" test (r.Resource().SchemaURL() → itself).
+func rootCallText(e ast.Expr) string { return exprStr(unparen(e)) }
+
+func enclosingIf(f *FuncInfo, n ast.Node) *ast.IfStmt {
+	var best *ast.IfStmt
+	inspectNoLit(f.Body(), func(m ast.Node) bool {
+		if is, ok := m.(*ast.IfStmt); ok && containsNoLitOrIn(is.Body, n) {
+			if best == nil || containsNoLitOrIn(best.Body, is) {
+				best = is
+			}
+		}
+		return true
+	})
+	return best
+}
+
 func enclosingIfCond(f *FuncInfo, n ast.Node) ast.Expr {
 	var best *ast.IfStmt
 	inspectNoLit(f.Body(), func(m ast.Node) bool {
@@ -445,6 +507,16 @@ func c13Copy(c *Ctx, ix *PkgIndex, xc xformCopy) []string {
 				c.Check(gap == "", "R2", sp+"|"+k+"|the guard examines everything the guarded encoding reads", site, "guard: "+guards[k],
 					k+" is encoded only if ("+guards[k]+") but carries "+gap+" as well: a value that differs from the zero value only there is exported without it (e.g. an unnamed scope with a version or attributes loses its identity)")
 			}
+		}
+		// a schema URL qualifies the data whether or not the resource / scope it came with has an encoding of its own: it is
+		// written with the message, or later under a test of the URL itself — not under a test of a sibling field
+		for _, m := range []string{"ResourceSpans", "ScopeSpans", "ResourceMetrics", "ScopeMetrics", "ResourceLogs", "ScopeLogs"} {
+			if _, has := pa[m]; !has {
+				continue
+			}
+			gtxt, guarded := siblingGuards[ix][m+".SchemaUrl"]
+			c.Check(!guarded || strings.Contains(gtxt, "SchemaURL") || strings.Contains(gtxt, "SchemaUrl"), "R2", sp+"|"+m+".SchemaUrl|not conditional on a sibling field", site, "guard: "+gtxt,
+				m+".SchemaUrl is written only if ("+gtxt+"): data whose resource or scope has a schema URL but fails that test is exported without it (e.g. a resource with a schema URL and no attributes)")
 		}
 		// optional extrema are present exactly when the SDK says so
 		for _, gm := range []struct{ key, must string }{
@@ -1093,9 +1165,10 @@ func c13Zipkin(c *Ctx) {
 	}
 	fields := map[string]string{}
 	var ctxLit *ast.CompositeLit
+	ctxFn := fn
 	for _, el := range lit.Elts {
 		if kv, ok := el.(*ast.KeyValueExpr); ok {
-			fields[kv.Key.(*ast.Ident).Name] = exprStr(kv.Value)
+			fields[kv.Key.(*ast.Ident).Name] = expandExpr(info, fn, kv.Value, 0)
 			if cl, ok := unparen(kv.Value).(*ast.CompositeLit); ok && kv.Key.(*ast.Ident).Name == "SpanContext" {
 				ctxLit = cl
 			}
@@ -1112,17 +1185,48 @@ func c13Zipkin(c *Ctx) {
 			if cl, ok := n.(*ast.CompositeLit); ok {
 				if nn := namedOf(info.Types[cl].Type); nn != nil && nn.Obj().Name() == "SpanContext" && ctxLit == nil {
 					ctxLit = cl
+					ctxFn = f
 				}
 			}
 			return true
 		})
 	}
+	var inlineParentAssign ast.Node
+	var inlineParentFn *FuncInfo
 	if ctxLit != nil {
 		cf := map[string]string{}
 		for _, el := range ctxLit.Elts {
 			if kv, ok := el.(*ast.KeyValueExpr); ok {
-				cf[kv.Key.(*ast.Ident).Name] = exprStr(kv.Value)
+				cf[kv.Key.(*ast.Ident).Name] = expandExpr(info, ctxFn, kv.Value, 0)
 			}
+		}
+		// a field given after the literal (zsc.ParentID = &pid under the validity test)
+		parentInline := false
+		var parentAssign ast.Node
+		inspectNoLit(ctxFn.Body(), func(n ast.Node) bool {
+			if as, ok := n.(*ast.AssignStmt); ok && len(as.Lhs) == len(as.Rhs) {
+				for i, l := range as.Lhs {
+					if sel, isSel := unparen(l).(*ast.SelectorExpr); isSel {
+						if nn := namedOf(info.TypeOf(sel.X)); nn != nil && nn.Obj().Name() == "SpanContext" {
+							if _, given := cf[sel.Sel.Name]; !given {
+								cf[sel.Sel.Name] = expandExpr(info, ctxFn, as.Rhs[i], 0)
+								if sel.Sel.Name == "ParentID" {
+									parentInline = true
+									parentAssign = as
+								}
+							}
+						}
+					}
+				}
+			}
+			return true
+		})
+		if parentInline {
+			inlineParentAssign, inlineParentFn = parentAssign, ctxFn
+		}
+		if parentInline && strings.Contains(cf["ParentID"], "toZipkinID(") && strings.Contains(cf["ParentID"], "Parent().SpanID()") && !strings.Contains(cf["ParentID"], "SpanContext()") {
+			// the helper written out in place: the same conversion of the parent's span id
+			cf["ParentID"] = "toZipkinParentID(" + cf["ParentID"] + ")"
 		}
 		c.Check(strings.Contains(cf["TraceID"], "toZipkinTraceID(") && strings.Contains(cf["TraceID"], "SpanContext().TraceID()"), "R6", "zipkin|SpanContext.TraceID|← toZipkinTraceID(SpanContext().TraceID())", site, cf["TraceID"], "trace id not preserved")
 		c.Check(strings.Contains(cf["ID"], "toZipkinID(") && strings.Contains(cf["ID"], "SpanContext().SpanID()") && !strings.Contains(cf["ID"], "Parent()"), "R6", "zipkin|SpanContext.ID|← toZipkinID(SpanContext().SpanID())", site, cf["ID"], "span id not preserved (or taken from the parent)")
@@ -1130,7 +1234,27 @@ func c13Zipkin(c *Ctx) {
 	} else {
 		c.Violation("R6", "zipkin|SpanContext literal", site, "zipkin SpanContext literal not found")
 	}
-	if f := c.Fn(zx, "R6", "toZipkinParentID"); f != nil {
+	validParent := func(e *GEdge) bool {
+		return edgeImplies(e, func(cnd ast.Expr, pol int) bool {
+			call, ok := cnd.(*ast.CallExpr)
+			if !ok || pol < 0 {
+				return false
+			}
+			cf := callee(info, call)
+			return cf != nil && cf.Name() == "IsValid"
+		})
+	}
+	if inlineParentAssign != nil && zx.Func("toZipkinParentID") == nil {
+		// the helper written out in place: the assignment itself is the non-nil case
+		g := zx.FG(inlineParentFn)
+		good := false
+		for _, x := range g.Nodes {
+			if x.N == inlineParentAssign {
+				good, _ = g.DominatedByEdges(x, validParent)
+			}
+		}
+		c.Check(good, "R6", "zipkin|toZipkinParentID|non-nil only for a valid parent span id", at(zx.M, inlineParentAssign.Pos()), "root spans have no parent id", "an all-zero parent id is exported for root spans")
+	} else if f := c.Fn(zx, "R6", "toZipkinParentID"); f != nil {
 		g := zx.FG(f)
 		good, n := true, 0
 		for _, x := range g.Nodes {
